@@ -13,7 +13,10 @@ META = {
     "explanation": (
         "P (proved on the real body): Block.__setitem__ - after a raw value is assigned to a variable the block's pretty-value cache "
         "no longer holds an entry for it (cache invalidation when the raw value changes), and the raw store happens exactly once; the "
-        "quantised-float members of the TE / object-update templates are covered by C10's proofs. The registry itself - ~200 "
+        "quantised-float members of the TE / object-update templates are covered by C10's proofs. Block.deserialize_var / serialize_var "
+        "(the cache in front of the registered serializers): a value comes from the cache or from exactly one run of the registered "
+        "serializer on the variable's raw value in object mode, and is then cached under that name; callers get a private deep copy unless "
+        "they opt out; serialize_var serializes once, stores the result as the raw value and caches the pretty value. The registry itself - ~200 "
         "(message, block, variable) serializers built from enum classes, template dictionaries and reflection over dataclasses - is "
         "outside the verifier's subset (comprehensions over enum members with symbolic filters, dict-driven dispatch), so the lossless "
         "claims are decided in the bounded tier: enum/flag serializers over the whole wire range (exhaustive for 8/16-bit wire types, "
@@ -51,6 +54,8 @@ def register(reg):
         ensures=["implies(ncalls('serialize_var') == 0, not dict_has(self._ser_cache._s, key) and ncalls('store:self.vars') == 1)",
                  "ncalls('serialize_var') <= 1"],
         frame=["self._ser_cache._s"]))
+    from contracts import c09b_contracts
+    c09b_contracts.register_p2(reg, PID)
 
 
 BOUNDED = [c09_native.bounded_subfields]
